@@ -5,7 +5,8 @@ use std::time::Duration;
 
 use serde::{Deserialize, Serialize};
 use serde_json::{json, Value};
-use similar::algorithms::{diff_deadline, IdentifyDistinct};
+use crate::simenv::diff_deadline;
+use similar::algorithms::IdentifyDistinct;
 use similar::{capture_diff_deadline, TextDiff};
 
 use crate::engine::{guarded, Agg, Prop, RunOut, Tier};
@@ -1453,9 +1454,14 @@ impl Prop for C07 {
     }
     fn exec(&self, case: &Case) -> RunOut {
         let mut out = RunOut::default();
+        let _ = crate::simenv::take_route_use();
         if let Err(f) = self.exec_inner(case, &mut out) {
             out.fail = Some(f);
         }
+        let ru = crate::simenv::take_route_use();
+        out.count("raw_diffs_via_algorithms::diff_deadline", ru[0]);
+        out.count("raw_diffs_via_algorithms::diff(no deadline)", ru[1]);
+        out.count("raw_diffs_via_module_level_functions(myers::diff etc.)", ru[2]);
         out
     }
     fn focus(&self, case: &Case, fail: &Fail) -> Case {
@@ -1530,6 +1536,8 @@ impl Prop for C07 {
     fn reach(&self, agg: &Agg) -> Vec<(&'static str, u64)> {
         let c = |k: &str| agg.counters.get(k).copied().unwrap_or(0);
         vec![
+            ("raw_diffs_via_algorithms::diff(no deadline)", agg.counters.get("raw_diffs_via_algorithms::diff(no deadline)").copied().unwrap_or(0)),
+            ("raw_diffs_via_module_level_functions", agg.counters.get("raw_diffs_via_module_level_functions(myers::diff etc.)").copied().unwrap_or(0)),
             ("myers_deadline_fallback", agg.hits[0]),
             ("myers_fallback_after_an_earlier_split", c("myers_fallback_after_split")),
             ("lcs_table_abandoned", agg.hits[2]),
